@@ -282,6 +282,40 @@ def _sample(c):
     return {k: (v if k != "items" else [{**i, "b": i["b"][:40] + ("..." if len(i["b"]) > 40 else "")} for i in v]) for k, v in c.items()}
 
 
+# ------------------------------------------------------------------ one-byte payloads in front of valid frames
+def e_tiny(tier, shard, nshards):
+    for lo in range(0, 256, 16)[shard::nshards]:
+        yield {"payloads": list(range(lo, lo + 16))}
+
+
+def o_tiny(case):
+    """a rightly framed one-byte payload (every byte value; its checksum may end in a sync byte), and the same with a
+    wrong trailer ending in each sync byte, directly in front of two valid frames: under every option combination the
+    two valid frames come back, in order - the options do not change how many bytes the tiny frame takes"""
+    from pv import framing
+
+    v1 = framing.build_frame(bytes.fromhex("3ed00003") + bytes(15))  # 1005, all zero
+    v2 = framing.build_frame(bytes.fromhex("fff1a2b3c4"))  # undefined type 4095
+    n = 0
+    for x in case["payloads"]:
+        good = framing.build_frame(bytes([x]))
+        variants = [good] + [good[:-1] + bytes([t]) for t in (0xD3, 0x24, 0xB5) if good[-1] != t]
+        for k, tiny in enumerate(variants):
+            data = tiny + v1 + v2
+            for validate in (0, 1):
+                for parsed in (True, False):
+                    for qoe in (0, 2):
+                        cfg = f"payload {x:02x}{' wrong trailer ..%02x' % tiny[-1] if k else ''} validate={validate} parsed={parsed} quitonerror={qoe}"
+                        out, _ = drive(make(data, validate=validate, parsed=parsed, quitonerror=qoe))
+                        raws = [o[0] for o in out if o[0] != "exc"]
+                        rest = [r for r in raws if r != tiny]
+                        if rest != [v1, v2]:
+                            raise Fail("frames-after-tiny-frame", f"{cfg}: returned {[r.hex()[:16] for r in raws]}; the two valid frames behind the tiny frame must come back whatever the options")
+                        n += 1
+    return Res(nontrivial=True, classes=["tiny-then-frames"], evals=n)
+
+
 SUBS = [
+    Sub("one_byte_payload_then_frames", o_tiny, enum=e_tiny, exhaustive=True, rule="all 256 one-byte payloads (right checksum, and wrong trailers ending in each sync byte) x validate x parsed x error mode, each directly in front of two valid frames (complete)", sample=lambda c: {"payloads": f"{c['payloads'][0]:02x}..{c['payloads'][-1]:02x}"}),
     Sub("option_differential", o_opts, strategy=s_opts, examples=(150, 3000), rule="see property rule", need={"has-wrong-crc": 1, "has-foreign": 1, "wrong-crc-frame-with-sync-like-payload": 1, "stream-buffered": 1, "debug-logging": 1, "false-sync-with-reserved-bits": 1, "tiny-frames": 1}, sample=_sample),
 ]
